@@ -147,6 +147,26 @@ pub fn run_l2(prog: &Prog, w: u64, which: Which) -> Result<L2Run, Outcome> {
         }
         Res::Panic(p) => return Err(Outcome::fail("panic", format!("pyxis panicked: {p}"))),
     };
+    // C13 is about what `pyxis::build` leaves on disk: take the files from that entry point
+    let mut built = built;
+    if which == Which::Compile {
+        match build_via_lib(&print_prog(prog), w as usize) {
+            Res::Ok(b) => built.files = b.files,
+            Res::Err(e) => return Err(Outcome::fail("entry-points-disagree", format!("the module set is accepted through add_module/build but pyxis::build on a directory fails: {e}"))),
+            Res::Panic(p) => return Err(Outcome::fail("panic", format!("pyxis::build panicked: {p}"))),
+        }
+    }
+    // the crate mirrors the *input* tree: a module without an output file cannot be declared
+    if which == Which::Compile {
+        for m in &prog.mods {
+            if !built.files.contains_key(&m.out_path()) {
+                return Err(Outcome::fail(
+                    "module-file-missing",
+                    format!("module {} has no output file {} (`pub mod` for it would be E0583); files written: {:?}", m.path_str(), m.out_path(), built.files.keys().collect::<Vec<_>>()),
+                ));
+            }
+        }
+    }
     let mut model = Model::new(prog, w);
     let mut app = Appendix::new();
     app.supply_extern_types(prog);
